@@ -191,7 +191,7 @@ class Kripke(DiGraph):
         S = V & set(self.states())
         S0 = V & self.S0
         E = [(s, d) for (s, d) in self.transitions_iter() if s in V and d in V]
-        L = {s: S for s, S in self._next.items() if s in V}
+        L = {s: AP for s, AP in self._labels.items() if s in V}
 
         return Kripke(S, S0, E, L)
 
